@@ -67,6 +67,11 @@ func (p *tyParser) elems() []constant.Constant {
 }
 
 func core2Build(a []string) *ir.Module {
+	m, _ := core2BuildNamed(a)
+	return m
+}
+
+func core2BuildNamed(a []string) (*ir.Module, map[string]*types.StructType) {
 	m := ir.NewModule()
 	named := map[string]*types.StructType{}
 	type td struct{ name, body string }
@@ -104,7 +109,7 @@ func core2Build(a []string) *ir.Module {
 			g.Immutable = f[1] == "c"
 		}
 	}
-	return m
+	return m, named
 }
 
 func init() {
